@@ -45,6 +45,7 @@ package main
 //@   may_reject
 //@   pure_funcvalues
 //@   ensures_local [returns normally (exit status 0) only if the patterns were valid and every package translated] patternError == nil && forall j int :: 0 <= j && j < len(errs) ==> errs[j] == nil
+//@   at_call os.Exit [a failure is reported with a status that is not 0 modulo 256] arg0 & 255 != 0
 //@   at_call writeFileIfChanged [a file is written only for a package that translated, unless -ignore-errors] errs[i] == nil || ignoreErrors
 //@   loop 1 invariant [someError records every failed package so far] forall j int :: 0 <= j && j <= rangeindex ==> errs[j] == nil || someError
 //@   loop 1 invariant [one error slot per file] len(errs) == len(fs)
